@@ -11,17 +11,16 @@ Objects (Model/FormulaFormat.lean, Model/FormulaSpec.lean):
 * `unLatex / unUnicode / unHtml` — the explicit inverse presentation maps (prefix symbols back to their keys, then a
   token scanner: `_{n}` ↦ `n`, `^{3+}` ↦ `+3`, `\cdot ` ↦ `..`, `\{` ↦ `{`, … and the HTML / Unicode analogues);
 * `canon f` — `f` up to the presentation-only normalisations: separator written `..`, a hydrate count / charge magnitude
-  `1` not written, no leading zeros in hydrate counts and charge magnitude.  Nothing else changes.
-* `Formula.WF` — the (decidable) grammar of C01; `ChargeNonzero f` — the charge token, if any, is not written `+0`/`-0`
-  (the real code raises `UnboundLocalError` there; outside the property's grammar, see notes/C13.md).
+  `1` not written, no leading zeros in hydrate counts and charge magnitude, a zero charge token dropped.  Nothing else changes.
+* `Formula.WF` — the (decidable) grammar of C01; `zeroCharge f` — a charge token is written and its value is zero (`+0`, `-00`):
+  such a token gets no superscript (fix 5273246), `canon` drops it, and the composition of the undone text differs from the original
+  only by the absent entry `0 ↦ 0`.
 
 All theorems hold for every well-formed AST: unbounded nesting depth, length, digits.
-LaTeX and `{ }` groups: `formula_to_latex` escapes the braces of the WHOLE text before splitting it; the theorems about the
-real function on rendered text (`presentation_only_latex_partial`, `unLatex_toLatex_partial`) are proved for formulas
-without `{ }` groups (`noCurly`), the inverse theorem `unLatex_present` covers all brackets.  The correspondence check
-covers `{ }` groups.
+LaTeX and `{ }` groups: `formula_to_latex` escapes the braces of the WHOLE text before splitting it; peeling, splitting and the
+leading integer commute with that escaping (Proofs/FormulaFormatLatex.lean), so the LaTeX theorems cover all brackets as well.
 -/
-import ChemModel.Proofs.FormulaFormatInst
+import ChemModel.Proofs.FormulaFormatLatex
 import ChemModel.Props.C01
 
 namespace ChemModel.C13
@@ -98,15 +97,6 @@ theorem greek_reference :
 
 /-! ### the charge token -/
 
-def ChargeNonzero (f : Formula) : Prop := ∀ c, f.charge = some c → c.val ≠ 0
-instance (f : Formula) : Decidable (ChargeNonzero f) := by
-  unfold ChargeNonzero
-  cases h : f.charge with
-  | none => exact isTrue (fun c hc => by simp at hc)
-  | some c =>
-    exact if hv : c.val = 0 then isFalse (fun hh => hh c rfl hv)
-      else isTrue (fun c' hc => by simp at hc; subst hc; exact hv)
-
 /-- **magnitude-then-sign, 1 omitted**: for a written charge of value `v ≠ 0` the superscript text is the decimal digits of `|v|`
     (nothing when `|v| = 1`, no leading zeros) followed by exactly one sign character -/
 theorem charge_magnitude_then_sign (c : Charge) (h : c.val ≠ 0) :
@@ -133,32 +123,25 @@ theorem charge_magnitude_then_sign (c : Charge) (h : c.val ≠ 0) :
     prefixes as their symbols, EVERY written count as one run of subscript digits (a decimal count keeps all its digits and
     its point), nothing else subscripted, the hydrate separator as `·`, the leading hydrate count printed iff it is not 1, the charge
     as one superscript magnitude-then-sign, brackets / states / marks / suffix verbatim. -/
-theorem presentation_only_unicode (f : Formula) (h : f.WF) (h0 : ChargeNonzero f) :
+theorem presentation_only_unicode (f : Formula) (h : f.WF) :
     formulaToUnicode f.render = .ok (present unicodePres f) := by
   unfold formulaToUnicode toUnicode
   rw [suffix_lists_agree.1]
-  exact formulaToFormat_render unicodeFmtSpec f h (fun q _ => termsBrAll_true q.terms) h0
+  exact formulaToFormat_render unicodeFmtSpec f h (fun q _ => termsBrAll_true q.terms)
 
 /-- **HTML.** The same with `<sub>n</sub>`, `<sup>q</sup>`, `&sdot;`, `&alpha;-` … -/
-theorem presentation_only_html (f : Formula) (h : f.WF) (h0 : ChargeNonzero f) :
+theorem presentation_only_html (f : Formula) (h : f.WF) :
     formulaToHtml f.render = .ok (present htmlPres f) := by
   unfold formulaToHtml toHtml
   rw [suffix_lists_agree.1]
-  exact formulaToFormat_render htmlFmtSpec f h (fun q _ => termsBrAll_true q.terms) h0
+  exact formulaToFormat_render htmlFmtSpec f h (fun q _ => termsBrAll_true q.terms)
 
-/- Full statement for LaTeX (all brackets):
-     theorem presentation_only_latex (f : Formula) (h : f.WF) (h0 : ChargeNonzero f) :
-         formulaToLatex f.render = .ok (present latexPres f)
-   Proved below for formulas without `{ }` groups.  Missing: `_formula_to_parts` / the hydrate split / the digit-run scan on text whose
-   braces were escaped beforehand (`\{`, `\}`): the C01 lemmas are about the unescaped rendering.  `present latexPres` already says what is
-   expected there (`\{ … \}`), `unLatex_present` inverts it, and the correspondence check compares it with the real output. -/
-/-- **LaTeX** (`_{n}`, `^{q}`, `\cdot `, `\alpha-` …), formulas without `{ }` groups. -/
-theorem presentation_only_latex_partial (f : Formula) (h : f.WF) (h0 : ChargeNonzero f) (hb : noCurly f = true) :
+/-- **LaTeX** (`_{n}`, `^{q}`, `\\cdot `, `\\alpha-` …; `{ }` groups shown as `\\{ … \\}`): all brackets, any depth. -/
+theorem presentation_only_latex (f : Formula) (h : f.WF) :
     formulaToLatex f.render = .ok (present latexPres f) := by
-  unfold formulaToLatex toLatex
-  rw [suffix_lists_agree.1, escapeBraces_noBrace (noBrace_render f h hb)]
-  exact formulaToFormat_render latexFmtSpec f h (fun q hq => by
-    simp only [noCurly, List.all_eq_true] at hb; exact hb q hq) h0
+  unfold formulaToLatex
+  rw [suffix_lists_agree.1]
+  exact toLatex_render f h
 
 /-! ### undoing the presentation -/
 
@@ -171,20 +154,41 @@ theorem unUnicode_present (f : Formula) (h : f.WF) : unUnicode (present unicodeP
 theorem unHtml_present (f : Formula) (h : f.WF) : unHtml (present htmlPres f) = (canon f).render :=
   unFormat_present htmlUnSpec f h
 
-/-- **`canon` is presentation-only**: it is again a well-formed formula with the same prefixes, the same suffix, the same element
-    occurrences (hence the same amount of every element), the same charge and the same composition dict; its text differs from the
-    original only in the separator (`..`), in a hydrate count / charge magnitude `1` (not written) and in leading zeros of those. -/
+/-- a charge written with value zero is not shown: the presentation is that of the formula without the token -/
+theorem zero_charge_not_shown (P : Pres) (f : Formula) (hz : zeroCharge f = true) :
+    present P f = present P { f with charge := none } := by
+  unfold zeroCharge at hz
+  cases hc : f.charge with
+  | none => rw [hc] at hz; exact absurd hz (by decide)
+  | some c =>
+    rw [hc] at hz
+    have : c.val = 0 := by simpa using hz
+    simp [present, presCharge, hc, this]
+
+/-- **`canon` is presentation-only**: same prefixes, same suffix, same term lists, the same element occurrences (hence the same amount
+    of every element), the same value of the charge (`denote f 0`; a zero charge token is dropped, value 0 either way); the composition
+    dict is the same, except that a charge written with value zero no longer contributes the entry `0 ↦ 0`.  Its text differs from the
+    original only in the separator (`..`), in a hydrate count / charge magnitude `1` (not written), in leading zeros of those, and
+    in a dropped `+0`.  It is again well-formed (for a dropped zero charge: provided the last term does not end in a phase-like state
+    such as `H2O(aq)+0`, whose `(aq)` would then read as the suffix). -/
 theorem canon_same_formula (f : Formula) (h : f.WF) :
-    (canon f).WF ∧ (canon f).prefixes = f.prefixes ∧ (canon f).suffix = f.suffix ∧
+    (canon f).prefixes = f.prefixes ∧ (canon f).suffix = f.suffix ∧
     (canon f).occurrences = f.occurrences ∧ (∀ k, (canon f).denote k = f.denote k) ∧
-    (canon f).composition = f.composition ∧
+    (canon f).composition = (if zeroCharge f = true then mergeComp f.occurrences else f.composition) ∧
+    (zeroCharge f = true → f.composition = setKey 0 0 (mergeComp f.occurrences)) ∧
     (canon f).parts.map Part.terms = f.parts.map Part.terms ∧
-    (canon f).charge.map Charge.neg = f.charge.map Charge.neg :=
-  ⟨canon_wf f h, rfl, rfl, canon_occurrences f, canon_denote f, canon_composition f,
-   by simp [canon, canonPart, Function.comp_def], by cases hc : f.charge <;> simp [canon, hc, canonCharge]⟩
+    ((canon f).charge.isSome = (f.charge.isSome && !zeroCharge f)) ∧
+    ((zeroCharge f = true → lastFinalOK f.parts = true) → (canon f).WF) :=
+  ⟨rfl, rfl, canon_occurrences f, canon_denote f, canon_composition f, zero_composition f,
+   by simp [canon, canonPart, Function.comp_def],
+   by
+    cases hc : f.charge with
+    | none => simp [canon, hc, zeroCharge]
+    | some c => by_cases hz : c.val = 0 <;> simp [canon, hc, zeroCharge, canonChargeOpt, hz],
+   canon_wf f h⟩
 
 /-- a formula already in canonical writing is left alone: then `unX (toX text) = text` literally -/
-theorem canon_fixed (f : Formula) (hs : f.sep = .dots)
+theorem canon_fixed (f : Formula) (hs : f.sep = .dots) (hz : zeroCharge f = false)
     (hp : ∀ p ∈ f.parts, ∀ ds, p.n = some ds → digitsVal ds ≠ 1 ∧ natStr (digitsVal ds) = ds)
     (hc : ∀ c, f.charge = some c → ∀ ds, c.mag = some ds → digitsVal ds ≠ 1 ∧ natStr (digitsVal ds) = ds) :
     (canon f).render = f.render := by
@@ -198,58 +202,65 @@ theorem canon_fixed (f : Formula) (hs : f.sep = .dots)
     | some ds =>
       obtain ⟨a, b⟩ := hp _ hpm ds rfl
       simp [canonPart, canonN, a, b]
-  have h2 : f.charge.map canonCharge = f.charge := by
+  have h2 : f.charge.bind canonChargeOpt = f.charge := by
     cases hch : f.charge with
     | none => rfl
     | some c =>
+      have hv : c.val ≠ 0 := by
+        intro e; simp [zeroCharge, hch, e] at hz
       obtain ⟨neg, mag⟩ := c
       cases mag with
-      | none => rfl
+      | none => simp [canonChargeOpt, hv, canonCharge, canonN]
       | some ds =>
         obtain ⟨a, b⟩ := hc _ hch ds rfl
-        simp [canonCharge, canonN, a, b]
+        simp [canonChargeOpt, hv, canonCharge, canonN, a, b]
   simp [Formula.render, canon, Formula.renderStoich, h1, h2, hs]
 
 /-- **Unicode round trip**: undoing the presentation of the real output gives the canonical text of the formula given -/
-theorem unUnicode_toUnicode (f : Formula) (h : f.WF) (h0 : ChargeNonzero f) :
+theorem unUnicode_toUnicode (f : Formula) (h : f.WF) :
     ∃ out, formulaToUnicode f.render = .ok out ∧ unUnicode out = (canon f).render :=
-  ⟨_, presentation_only_unicode f h h0, unUnicode_present f h⟩
+  ⟨_, presentation_only_unicode f h, unUnicode_present f h⟩
 
 /-- **HTML round trip** -/
-theorem unHtml_toHtml (f : Formula) (h : f.WF) (h0 : ChargeNonzero f) :
+theorem unHtml_toHtml (f : Formula) (h : f.WF) :
     ∃ out, formulaToHtml f.render = .ok out ∧ unHtml out = (canon f).render :=
-  ⟨_, presentation_only_html f h h0, unHtml_present f h⟩
+  ⟨_, presentation_only_html f h, unHtml_present f h⟩
 
-/- Full statement: the same without `hb` (see `presentation_only_latex_partial` for what is missing). -/
-/-- **LaTeX round trip**, formulas without `{ }` groups -/
-theorem unLatex_toLatex_partial (f : Formula) (h : f.WF) (h0 : ChargeNonzero f) (hb : noCurly f = true) :
+/-- **LaTeX round trip** -/
+theorem unLatex_toLatex (f : Formula) (h : f.WF) :
     ∃ out, formulaToLatex f.render = .ok out ∧ unLatex out = (canon f).render :=
-  ⟨_, presentation_only_latex_partial f h h0 hb, unLatex_present f h⟩
+  ⟨_, presentation_only_latex f h, unLatex_present f h⟩
 
 /-- **same composition, charge, prefixes, suffix**: the text obtained by undoing any of the three presentations parses (C01's
-    `parse_render`) to a dict that is exactly the denotation of the ORIGINAL formula: its keys are the written elements (+ 0 iff a charge
-    is written), every value is the written amount / the signed charge; and it carries the original prefixes and suffix. -/
-theorem undone_parses_same (f : Formula) (h : f.WF) :
-    ∃ c, formulaToCompositionL (canon f).render = .ok c ∧ Agrees f c ∧
+    `parse_render`) to a dict that is exactly the denotation of the ORIGINAL formula: no duplicate keys; its keys are the written elements,
+    plus 0 iff a charge with a NON-ZERO value is written (the only difference a presentation can make: `Fe+0` comes back as `Fe`, i.e. without
+    the entry `0 ↦ 0`); every value is the written amount / the signed charge; and the text carries the original prefixes and suffix. -/
+theorem undone_parses_same (f : Formula) (h : f.WF) (hz : zeroCharge f = true → lastFinalOK f.parts = true) :
+    ∃ c, formulaToCompositionL (canon f).render = .ok c ∧ (Comp.keys c).Nodup ∧
+      (∀ k, k ∈ Comp.keys c ↔ (k ∈ Comp.keys f.occurrences ∨ (k = 0 ∧ f.charge.isSome = true ∧ zeroCharge f = false))) ∧
+      (∀ k ∈ Comp.keys c, Comp.get? c k = some (f.denote k)) ∧ (∀ k, k ∉ Comp.keys c → Comp.get? c k = none) ∧
       (canon f).prefixes = f.prefixes ∧ (canon f).suffix = f.suffix := by
-  obtain ⟨c, hc, ha⟩ := C01.parse_render (canon f) (canon_wf f h)
-  refine ⟨c, by simpa [formulaToComposition, Formula.renderStr] using hc, ?_, rfl, rfl⟩
-  have hsome : (canon f).charge.isSome = f.charge.isSome := by cases hc' : f.charge <;> simp [canon, hc']
-  exact ⟨ha.nodup, fun k => by rw [ha.keys k, canon_occurrences, hsome],
-    fun k hk => by rw [ha.value k hk, canon_denote], ha.absent⟩
+  obtain ⟨c, hc, ha⟩ := C01.parse_render (canon f) (canon_wf f h hz)
+  refine ⟨c, by simpa [formulaToComposition, Formula.renderStr] using hc, ha.nodup, ?_, ?_, ha.absent, rfl, rfl⟩
+  · intro k
+    have hsome : (canon f).charge.isSome = (f.charge.isSome && !zeroCharge f) := (canon_same_formula f h).2.2.2.2.2.2.2.1
+    rw [ha.keys k, canon_occurrences, hsome]
+    simp
+  · intro k hk
+    rw [ha.value k hk, canon_denote]
 
 /-! ### substances and species -/
 
 /-- `Substance.from_formula` on a written formula: the three names are the three presentations and the composition is the written one -/
-theorem substance_names_spec (f : Formula) (h : f.WF) (h0 : ChargeNonzero f) (hb : noCurly f = true) :
+theorem substance_names_spec (f : Formula) (h : f.WF) :
     ∃ s, substanceFromFormula f.render = .ok s ∧ s.name = f.render ∧
       s.latexName = present latexPres f ∧ s.unicodeName = present unicodePres f ∧ s.htmlName = present htmlPres f ∧
       Agrees f s.composition ∧ s.phaseIdx = none := by
   obtain ⟨c, hc, ha⟩ := C01.parse_render f h
   have hc' : formulaToCompositionL f.render = .ok c := by simpa [formulaToComposition, Formula.renderStr] using hc
   refine ⟨⟨f.render, present latexPres f, present unicodePres f, present htmlPres f, c, none⟩, ?_, rfl, rfl, rfl, rfl, ha, rfl⟩
-  simp [substanceFromFormula, presentation_only_latex_partial f h h0 hb, presentation_only_unicode f h h0,
-    presentation_only_html f h h0, hc']
+  simp [substanceFromFormula, presentation_only_latex f h, presentation_only_unicode f h,
+    presentation_only_html f h, hc']
 
 /-- `findPhaseSeq`: the first phase (in order) the text ends with decides; its 1-based position is the index -/
 theorem findPhaseSeq_hit (pre : List Str) (p : Str) (post : List Str) (k : Nat) (s : Str)
@@ -339,13 +350,14 @@ def arrowText : Printer → Bool → Str
   | .unicode, false => "→".toList | .unicode, true => "⇌".toList
   | .html, false => "&rarr;".toList | .html, true => "&harr;".toList
 
-/-- one printed term: the coefficient followed by a blank, omitted iff it is 1, then the name -/
-def termText (p : Printer) (S : List (Str × Substance)) (kv : Str × Nat) : Str :=
-  (if kv.2 = 1 then [] else natStr kv.2 ++ [' ']) ++ printKey p S kv.1
+/-- one printed term: the coefficient (`str` of the int / Fraction: `3`, `1/2`) followed by a blank, omitted iff it equals 1, then the name -/
+def termText (p : Printer) (S : List (Str × Substance)) (kv : Str × Rat) : Str :=
+  (if kv.2 = 1 then [] else coefStr kv.2 ++ [' ']) ++ printKey p S kv.1
 
 /-- **a printed reaction / equilibrium**: the reactant terms in stored order (zero coefficients are not shown) joined by ` + `, one blank,
-    that printer's arrow, one blank, the product terms in stored order joined by ` + `; every term is `termText`. -/
-theorem reaction_print_spec (p : Printer) (eq : Bool) (S : List (Str × Substance)) (reac prod : List (Str × Nat)) :
+    that printer's arrow, one blank, the product terms in stored order joined by ` + `; every term is `termText` — in particular
+    a coefficient strictly between 0 and 1 (`1/2`) is shown, only a coefficient equal to 1 is omitted and only one equal to 0 drops the term. -/
+theorem reaction_print_spec (p : Printer) (eq : Bool) (S : List (Str × Substance)) (reac prod : List (Str × Rat)) :
     printReaction p eq S reac prod =
       joinStrs [' ', '+', ' '] ((reac.filter (fun kv => kv.2 ≠ 0)).map (termText p S)) ++ ([' '] ++ (arrowText p eq ++ ([' '] ++
       joinStrs [' ', '+', ' '] ((prod.filter (fun kv => kv.2 ≠ 0)).map (termText p S))))) := by
@@ -378,17 +390,23 @@ private def f0 : Formula :=
               ⟨some ['0', '1'], Terms.ofList [el 1 (.int ['2']), el 8]⟩],
     charge := some ⟨true, some ['0', '1', '2']⟩, suffix := some "(s)".toList }
 
-example : f0.WF ∧ ChargeNonzero f0 ∧ noCurly f0 = true := by decide
+example : f0.WF ∧ zeroCharge f0 = false ∧ noCurly f0 = true := by decide
 example : f0.render = "beta-.Ca2.832(OH)2·01H2O-012(s)".toList := by decide
 example : (canon f0).render = "beta-.Ca2.832(OH)2..H2O-12(s)".toList := by decide
 example : (formulaToLatex f0.render).toOption = some "\\beta-^\\bullet Ca_{2.832}(OH)_{2}\\cdot H_{2}O^{12-}(s)".toList := by decide +kernel
 example : (formulaToUnicode f0.render).toOption = some "β-⋅Ca₂.₈₃₂(OH)₂·H₂O¹²⁻(s)".toList := by decide +kernel
 example : (formulaToHtml f0.render).toOption = some "&beta;-&sdot;Ca<sub>2.832</sub>(OH)<sub>2</sub>&sdot;H<sub>2</sub>O<sup>12-</sup>(s)".toList := by
   decide +kernel
+example : (formulaToLatex "C{N}2..3H2O-2(aq)".toList).toOption = some "C\\{N\\}_{2}\\cdot 3H_{2}O^{2-}(aq)".toList := by decide +kernel
+example : (formulaToUnicode "Fe+0".toList).toOption = some "Fe".toList ∧ (formulaToHtml "H2O-0(aq)".toList).toOption = some "H<sub>2</sub>O(aq)".toList := by
+  decide +kernel
 example : unLatex "\\theta-[Fe(CN)_{6}]\\{X\\}^{3+}(aq)".toList = "theta-[Fe(CN)6]{X}+3(aq)".toList := by decide +kernel
 example : unUnicode "θ-Na₂CO₃·7H₂O⁻".toList = "theta-Na2CO3..7H2O-".toList := by decide +kernel
 example : phaseIdx (.seq (speciesPhases.map String.toList)) (some 0) f0.render = some 1 := by decide +kernel
 example : printReaction .latex false [] [("H2O".toList, 2)] [("H+".toList, 1), ("OH-".toList, 1), ("X".toList, 0)]
     = "2 H2O \\rightarrow H+ + OH-".toList := by decide +kernel
+example : printReaction .unicode true [] [("A".toList, 1 / 2), ("B".toList, 3 / 2)] [("C".toList, 1)]
+    = "1/2 A + 3/2 B ⇌ C".toList := by decide +kernel
+example : coefStr (1 / 2) = "1/2".toList ∧ coefStr 12 = "12".toList ∧ coefStr (-3 / 4) = "-3/4".toList := by decide +kernel
 
 end ChemModel.C13
